@@ -15,6 +15,8 @@ EXPLANATION = (
     "given template/XML folder or the bundled template next to the module. R6: every output is written by "
     "one write() of a finished text right after its open(). OS-level atomicity under concurrent writers of "
     "the same target is not decided.")
+EXPLANATION += (
+    ' R7: scalar attributes re-assigned with literals while declarations are processed are assigned on every path before they are read (must-definition analysis through unconditional self-calls, with call-site context). R8: the key of every compute-once table covers everything the stored value is computed from. Both carry a built-in positive and negative example analysed on every run.')
 ASSUMPTIONS = [
     "list/dict iteration order is insertion order (CPython >= 3.7); sorted() is stable",
     "callee resolution as in C07; print() to stdout is not an output file",
